@@ -59,7 +59,8 @@ def statement_text(el, name):
     if name in ('condition', 'switch', 'case'):
         return expr_text(v)
     if name == 'repeat':
-        return '%s %s' % (v[0], expr_text(v[1]))
+        nm = v[0] if isinstance(v[0], str) else '(' + ', '.join(v[0]) + ')'
+        return '%s %s' % (nm, expr_text(v[1]))
     if name in ('content', 'replace', 'onerror'):
         mode, e = v
         return ('structure ' if mode == 'structure' else '') + expr_text(e)
